@@ -1136,4 +1136,53 @@ theorem foldl_add_int_cast (l : List Int) (a : Int) :
 theorem sumI_eq_sumR (l : List Int) : sumI l = sumR (l.map fun x : Int => (Int.cast x : Rat)) := by
   unfold sumI; rw [foldl_add_int_cast]; simp
 
+/-! ### records without end date -/
+
+def ValidDate (d : Date) : Prop := 1 ≤ d.y ∧ 1 ≤ d.m ∧ d.m ≤ 12 ∧ 1 ≤ d.d ∧ d.d ≤ 31
+
+theorem ord_le_eoy_same (d : Date) (h : ValidDate d) : d.ord ≤ (⟨d.y, 12, 31⟩ : Date).ord := by
+  obtain ⟨_, h1, h2, h3, h4⟩ := h
+  simp only [Date.ord]
+  norm_num
+  split <;> omega
+
+theorem soy_lt_succ (y : Nat) (_hy : 1 ≤ y) : (⟨y, 12, 31⟩ : Date).ord < (⟨y + 1, 12, 31⟩ : Date).ord := by
+  simp only [Date.ord]; norm_num; omega
+
+theorem eoy_mono (a b : Nat) (ha : 1 ≤ a) (h : a ≤ b) : (⟨a, 12, 31⟩ : Date).ord ≤ (⟨b, 12, 31⟩ : Date).ord := by
+  induction b with
+  | zero => omega
+  | succ b ih =>
+    rcases Nat.eq_or_lt_of_le h with rfl | hlt
+    · exact le_refl _
+    · have := ih (by omega)
+      have := soy_lt_succ b (by omega)
+      omega
+
+theorem ord_le_eoy (d : Date) (h : ValidDate d) (L : Nat) (hL : d.y ≤ L) : d.ord ≤ (⟨L, 12, 31⟩ : Date).ord :=
+  le_trans (ord_le_eoy_same d h) (eoy_mono d.y L h.1 hL)
+
+/-- an open row is the closed row that ends on Dec 31 of the frame's latest year -/
+def closeRow (L : Nat) (r : Int × Option Date × Option Date) : Int × Option Date × Option Date :=
+  (r.1, r.2.1, some (r.2.2.getD ⟨L, 12, 31⟩))
+
+theorem rowShare_closeRow (m : Date) (y : Nat) (r : Int × Option Date × Option Date) :
+    rowShare (some m) y r = rowShare none y (closeRow m.y r) := by
+  obtain ⟨v, st, en⟩ := r
+  cases st with
+  | none => rfl
+  | some st => cases en <;> rfl
+
+theorem yearlyShare_latest (rows : List (Int × Option Date × Option Date)) (y : Nat) (m : Date)
+    (hm : latestDate rows = some m) :
+    yearlyShare rows y = sumR (rows.map fun r => yearlyShare [closeRow m.y r] y) := by
+  unfold yearlyShare
+  rw [hm, sumR_filterMap]
+  congr 1
+  apply List.map_congr_left
+  intro r _
+  have := yearlyShare_single (closeRow m.y r) y ((closeRow m.y r).2.2.getD ⟨0,0,0⟩) (by simp [closeRow])
+  unfold yearlyShare at this
+  rw [this, rowShare_closeRow]
+
 end LdarModel.Summary
